@@ -30,7 +30,7 @@ RULE = (
     "write index of a cold run x {lost write, crash before, crash after} followed by restarts on the surviving store, then key-file truncation / "
     "deletion / replacement across a restart. Non-trivial = a hit was served or an injected cache fault fired on a stored entry; distinct = digest "
     "of (program shape, cache flags, backend, history / fault point)."
-    ' Further: cacheable nodes with emit outputs on DiskCache, two gates sharing one function with equal targets but different emit names, two graphs that differ in one node (extra emit / sibling closure made by the same file-defined factory) sharing one cache, a long-lived DiskCache object serving warm run, hit and damaged lookups; cacheable nodes that return / receive an unpicklable value (in-memory histories).'
+    ' Further: cacheable nodes with emit outputs on DiskCache, two gates sharing one function with equal targets but different emit names, two graphs that differ in one node (extra emit / sibling closure made by the same file-defined factory) sharing one cache, a long-lived DiskCache object serving warm run, hit and damaged lookups; cacheable nodes that return / receive an unpicklable value (in-memory histories); the same two-parameter function with its inputs wired crosswise in the variant graph (equal graph-level inputs, different arguments).'
 )
 ASSUMPTIONS = [
     "values are immutable (InMemoryCache shares objects by reference)",
@@ -118,6 +118,13 @@ def _add_shared(g: dict, rng: random.Random) -> list[str]:
         g["order"].append(len(g["nodes"]) - 1)
         g["ext"].append("drq")
         shared.append("drain")
+    if rng.random() < 0.3:
+        # a cacheable two-parameter node; the variant graph B holds the SAME function under the same node and output name but with its
+        # two inputs wired crosswise (rename_inputs swap): equal graph-level inputs, different arguments - the entry must not be shared
+        g["nodes"].append({"kind": "fn", "name": "sw", "params": [{"name": "swa"}, {"name": "swb"}], "outs": ["sw_o"], "cache": True})
+        g["order"].append(len(g["nodes"]) - 1)
+        g["ext"] += ["swa", "swb"]
+        shared.append("swapped_inputs")
     return shared
 
 
@@ -132,6 +139,10 @@ def _variant_graph(g: dict, variant: dict | None) -> dict:
                 nd.setdefault("emit", []).append("vsig")
         g2["nodes"].append({"kind": "fn", "name": "vw", "params": [], "outs": ["vw_o"], "wait_for": ["vsig"]})
         g2["order"] = list(g2["order"]) + [len(g2["nodes"]) - 1]
+    if variant.get("swap"):
+        for nd in g2["nodes"]:
+            if nd["name"] == "sw":
+                nd["rename_inputs"] = {"swa": "swb", "swb": "swa"}
     if variant.get("closure"):
         for nd in g2["nodes"]:
             if nd.get("closure"):
@@ -174,6 +185,8 @@ def gen_case(rng: random.Random, tier: str) -> dict:
             variant = {"node": rng.choice(cands)}
         if "closure_twins" in shared:
             variant = dict(variant or {}, closure=True)
+        if "swapped_inputs" in shared:
+            variant = dict(variant or {}, swap=True)
         if variant:
             for r_ in runs:
                 r_["gv"] = rng.randrange(2)
